@@ -278,6 +278,71 @@ pub fn check_packet(p: &RefPacket, case: &dyn Fn() -> Value, all_caps: bool) -> 
     out
 }
 
+/// Non-initial states: a packet obtained from the parser, then edited through the public API,
+/// must serialise to a well-framed message whose content is the edited packet.
+/// edits: 0 none, 1 push question, 2 push answer, 3 append a string to every TXT, 4 set OPT, 5 clear OPT,
+/// 6 remove the first answer, 7 change the first record's owner name
+pub fn check_parse_edit(seed: &RefPacket, edit: u8) -> Vec<Finding> {
+    let mk = || json!({"kind": "parse-edit", "packet": seed, "edit": edit});
+    let wire = seed.encode_compressed(0, true);
+    let r = guarded(|| -> Option<Vec<(String, String)>> {
+        let mut p = Packet::parse(&wire).ok()?;
+        match edit {
+            1 => p.questions.push(simple_dns::Question::new(simple_dns::Name::new_unchecked("added.example"), simple_dns::TYPE::A.into(), simple_dns::CLASS::IN.into(), true)),
+            2 => p.answers.push(simple_dns::ResourceRecord::new(simple_dns::Name::new_unchecked("added.example"), simple_dns::CLASS::IN, 77, simple_dns::rdata::RData::A(simple_dns::rdata::A { address: 0x01020304 }))),
+            3 => {
+                for r in p.answers.iter_mut().chain(p.additional_records.iter_mut()) {
+                    if let simple_dns::rdata::RData::TXT(t) = &mut r.rdata {
+                        t.add_char_string(simple_dns::CharacterString::new(b"added=1").unwrap());
+                    }
+                }
+            }
+            4 => *p.opt_mut() = Some(lib_opt(&RefOpt { udp: 1400, version: 0, options: vec![(10, crate::refmodel::B(vec![1, 2, 3]))] }).into_owned()),
+            5 => *p.opt_mut() = None,
+            6 => {
+                if !p.answers.is_empty() {
+                    p.answers.remove(0);
+                }
+            }
+            7 => {
+                if let Some(r) = p.answers.first_mut() {
+                    r.name = simple_dns::Name::new_unchecked("renamed.example.com");
+                }
+            }
+            _ => {}
+        }
+        let mut exp = observe(&p);
+        if exp.opt.is_none() && exp.rcode > 15 && exp.rcode != RCODE_RESERVED {
+            // a 12-bit rcode without EDNS is not representable: only its low four bits are carried
+            exp.rcode &= 0xf;
+        }
+        let mut bad = Vec::new();
+        for compressed in [false, true] {
+            let mode = if compressed { "compressed" } else { "plain" };
+            match if compressed { p.build_bytes_vec_compressed() } else { p.build_bytes_vec() } {
+                Err(e) => bad.push((format!("{}|build-error", mode), format!("{:?}", e))),
+                Ok(bytes) => match decode_packet(&bytes) {
+                    Err(e) => bad.push((format!("{}|framing", mode), format!("edited packet serialises to an ill-framed message: {:?}", e))),
+                    Ok((d, w)) => {
+                        if w.end != bytes.len() {
+                            bad.push((format!("{}|trailing-bytes", mode), "bytes after the last entry".into()));
+                        }
+                        for (tag, det) in diff(&exp, &d) {
+                            bad.push((format!("{}|content|{}", mode, tag), det));
+                        }
+                    }
+                },
+            }
+        }
+        Some(bad)
+    });
+    match r {
+        Err(pn) => vec![finding(format!("C04|parse-edit|{}", pn.sig()), format!("{:?}", pn), mk())],
+        Ok(None) => vec![],
+        Ok(Some(bad)) => bad.into_iter().map(|(t, d)| finding(format!("C04|parse-edit|{}", t), format!("edit {}: {}", edit, d), mk())).collect(),
+    }
+}
+
 pub fn run(ctx: &Ctx) {
     let thorough = ctx.tier == crate::engine::Tier::Thorough;
     ctx.set_rule("packets (header/record/question families with <= 1 deviation, section shapes, a 1/16 stride (quick) or 1/2 stride (thorough) of the 4-slot name-sharing space) x {plain, compressed} x writer configurations: Vec, growable cursor over 11 prefill/start combinations, fixed cursor at offsets 0 and 2 and fixed slice at every capacity 0..=len+2, chunking writers {1,2,7}, failing writer at every byte 0..=len; (a) output decoded strictly by the reference decoder, (b) bytes equal the vector-returning function and nothing outside them changes, (c) too small or failing => Err, enough room => Ok. non-trivial = packet has at least one record");
@@ -310,6 +375,23 @@ pub fn run(ctx: &Ctx) {
             }
         }
     });
+    // non-initial states: parsed, then edited
+    let edits: Vec<(usize, u8)> = (0..n1).flat_map(|i| (0u8..8).map(move |e| (i, e))).collect();
+    let echunks: Vec<&[(usize, u8)]> = edits.chunks(256).collect();
+    let space_ref = &space;
+    par_shards(ctx, &echunks, |es, t: &mut Tally| {
+        for (i, e) in es.iter() {
+            t.evals += 1;
+            t.transitions += 2;
+            t.nontrivial += 1;
+            let f = check_parse_edit(&space_ref[*i], *e);
+            t.outcome(if f.is_empty() { "edited-ok" } else { "edited-bad" });
+            if !f.is_empty() {
+                ctx.violations(f);
+            }
+        }
+    });
+    ctx.space("non-initial states: every packet of the first family parsed from its compressed reference encoding, then one of 8 edits (push question / answer, append to TXT, set / clear OPT, remove, rename), then serialised and decoded strictly", edits.len() as u64, "complete");
     ctx.space("packets: header/record/question families and section shapes", n1 as u64, "complete");
     ctx.space(&format!("packets: name-sharing space (4 slots) at stride {}, 3 straddle packets", stride * 7 + 1), (space.len() - n1) as u64, "complete for the stride");
     ctx.sample(json!({"kind": "packet", "packet": space[n1 / 2]}));
@@ -318,6 +400,7 @@ pub fn run(ctx: &Ctx) {
 
 pub fn replay(case: &Value) -> Vec<Finding> {
     match serde_json::from_value::<RefPacket>(case["packet"].clone()) {
+        Ok(p) if case["kind"].as_str() == Some("parse-edit") => check_parse_edit(&p, case["edit"].as_u64().unwrap_or(0) as u8),
         Ok(p) => check_packet(&p, &|| case.clone(), true),
         Err(e) => vec![finding("C04|replay-unreadable", format!("{}", e), case.clone())],
     }
